@@ -381,7 +381,8 @@ class Weaver:
         return self.sources[rel]
 
     # ---------------------------------------------------------------------------------------
-    def weave(self, group):
+    def weave(self, group, extras=()):
+        self.extras = list(extras)
         w = Woven(group)
         self._template(os.path.join(self.verif, 'groups', group + '.rs'), w)
         return w
@@ -393,6 +394,11 @@ class Weaver:
                 self._template(os.path.join(self.verif, s[len('//@include '):].strip()), w)
             elif s.startswith('//@item '):
                 self._item(s[len('//@item '):].strip(), w)
+            elif s == '//@extras':
+                # helper functions that the code under contract calls but that have no contract file: extracted verbatim,
+                # verified without a postcondition (callers learn nothing about their result)
+                for k, (file, segs) in enumerate(getattr(self, 'extras', [])):
+                    self._unit(None, 'verify', w, auto=(file, segs, k))
             elif s.startswith('//@consts '):
                 self._consts(s[len('//@consts '):].strip(), w)
             elif s.startswith('//@verify '):
@@ -436,8 +442,10 @@ class Weaver:
         if t2 != text:
             log.append(('R7', "const X: &str => &'static str"))
             text = t2
-        if 'pub' in opts and not text.lstrip().startswith('pub'):
-            text = 'pub ' + text.lstrip()
+        if 'pub' in opts:
+            text = re.sub(r'^pub\(crate\)\s+', '', text.lstrip())
+            if not text.startswith('pub'):
+                text = 'pub ' + text
         first = S.line_of(it['start'])
         a = w.lineno + 1
         w.emit('// ---- item %s (verbatim from %s:%d, sha256 %s) ----' % (' :: '.join(segs), file, first, S.sha(it['start'], it['end'])[:16]))
@@ -446,8 +454,15 @@ class Weaver:
                             rules=log, line_start=a, line_end=w.lineno))
 
     # ---------------------------------------------------------------------------------------
-    def _unit(self, unit, mode, w):
-        spec = parse_vspec(os.path.join(self.verif, 'contracts', unit + '.vspec'))
+    def _unit(self, unit, mode, w, auto=None):
+        if auto:
+            file, segs, k = auto
+            unit = 'auto.%s' % segs[-1].split()[-1]
+            spec = dict(unit=unit, source=file + ' :: ' + ' :: '.join(segs), props_safety=['C02'], props_internal=[], result='res', attrs=['#[verifier::exec_allows_no_decreases_clause]'],
+                        requires=[], ensures=[], decreases=None, entry=None, loops={}, closures={}, ats=[], subs=[], sigsubs=[], path=None,
+                        notes=['auto-extracted helper without contract'], implextra=[], aftereach=[], regions=[], tail=None, tailbind=None, implas=None)
+        else:
+            spec = parse_vspec(os.path.join(self.verif, 'contracts', unit + '.vspec'))
         file, segs = parse_source_path(spec['source'])
         S = self.src(file)
         it = S.find(segs)
